@@ -80,6 +80,16 @@ pub struct Ops {
     pub ron_write: fn(&[f64], &mut SimWriter<'_>) -> IoResult<()>,
     pub ron_from_str: fn(&str, &[f64]) -> IoResult<Outcome>,
     pub ron_from_reader: fn(&mut SimReader<'_>, &[f64]) -> IoResult<Outcome>,
+    /// the color as the payload of a user enum (`style`: untagged, internally tagged, adjacently tagged),
+    /// through JSON text, a `serde_json::Value` or RON
+    pub enum_round: fn(&[f64], u8, u8) -> IoResult<EnumRound>,
+}
+
+/// Result of one enum-wrapped round trip.
+pub enum EnumRound {
+    /// the format refused to write this shape under this tagging (serde cannot put a tag into a sequence or number)
+    NotExpressible(String),
+    Back { text: String, outcome: Outcome },
 }
 
 pub struct OptOps {
@@ -173,6 +183,72 @@ fn ron_from_reader<X: Case>(r: &mut SimReader<'_>, expect: &[f64]) -> IoResult<O
     ron::de::from_reader::<_, X>(r).map(|x| outcome(x, expect)).map_err(|e| e.to_string())
 }
 
+// The color as the payload of a user enum. serde buffers untagged and internally tagged enums into its
+// private `Content` tree and replays it through `ContentDeserializer` (exact size hints, borrowed and owned
+// keys, a check that nothing is left over) — the way colors in configuration files are very often read.
+#[derive(Serialize, Deserialize, Debug)]
+#[serde(untagged)]
+enum EnumUntagged<X> {
+    Other { palsim_other: String },
+    Color(X),
+}
+#[derive(Serialize, Deserialize, Debug)]
+#[serde(tag = "kind")]
+enum EnumInternal<X> {
+    Other { palsim_other: String },
+    Color(X),
+}
+#[derive(Serialize, Deserialize, Debug)]
+#[serde(tag = "kind", content = "value")]
+enum EnumAdjacent<X> {
+    Other { palsim_other: String },
+    Color(X),
+}
+
+fn enum_round<X: Case>(vals: &[f64], style: u8, via: u8) -> IoResult<EnumRound> {
+    macro_rules! go {
+        ($E:ident) => {{
+            let doc = $E::Color(X::build(vals));
+            let back: (String, $E<X>) = match via {
+                0 => {
+                    let text = match serde_json::to_string(&doc) {
+                        Ok(t) => t,
+                        Err(e) => return Ok(EnumRound::NotExpressible(e.to_string())),
+                    };
+                    let b = serde_json::from_str::<$E<X>>(&text).map_err(|e| format!("{text} -> {e}"))?;
+                    (text, b)
+                }
+                1 => {
+                    let v = match serde_json::to_value(&doc) {
+                        Ok(t) => t,
+                        Err(e) => return Ok(EnumRound::NotExpressible(e.to_string())),
+                    };
+                    let text = v.to_string();
+                    let b = serde_json::from_value::<$E<X>>(v).map_err(|e| format!("{text} -> {e}"))?;
+                    (text, b)
+                }
+                _ => {
+                    let text = match ron::ser::to_string(&doc) {
+                        Ok(t) => t,
+                        Err(e) => return Ok(EnumRound::NotExpressible(e.to_string())),
+                    };
+                    let b = ron::de::from_str::<$E<X>>(&text).map_err(|e| format!("{text} -> {e}"))?;
+                    (text, b)
+                }
+            };
+            match back {
+                (text, $E::Color(x)) => Ok(EnumRound::Back { text, outcome: outcome(x, vals) }),
+                (text, other) => Err(format!("{text} -> read back as another variant: {other:?}")),
+            }
+        }};
+    }
+    match style {
+        0 => go!(EnumUntagged),
+        1 => go!(EnumInternal),
+        _ => go!(EnumAdjacent),
+    }
+}
+
 const fn ops<X: Case>() -> Ops {
     Ops {
         record: record::<X>,
@@ -187,6 +263,7 @@ const fn ops<X: Case>() -> Ops {
         ron_write: ron_write::<X>,
         ron_from_str: ron_from_str::<X>,
         ron_from_reader: ron_from_reader::<X>,
+        enum_round: enum_round::<X>,
     }
 }
 
